@@ -2,8 +2,10 @@
   C24 — Vector index search returns valid nearest neighbours.
   Model: ILV.Model.Hnsw (`src/hnsw_index.rs`) over the parameters `FloatOps` and `ann` (= hnsw_rs
   search, contract `annOk`).  Lemmas: ILV.Lemmas.Hnsw, ILV.Lemmas.Metric.
-  The full statement is false of the faithful model (the code has defects): `C24_refuted`; what
-  holds is `C24_partial`, for histories satisfying the decidable predicate `graphInStep`.
+  After the repair of the wrapper (tombstones filtered in `search`, cleared by `insert`, batches and
+  rebuilds validated first) the statement holds for all histories: `C24_full`.  What remains a
+  finding (k-nearest optimality for the Manhattan re-rank window, the `ann` contract itself) is not
+  part of this statement; see `C24_manhattan_window_witness`.
 -/
 import ILV.Lemmas.Hnsw
 import ILV.Lemmas.Metric
@@ -13,91 +15,72 @@ open ILV ILV.Hnsw ILV.VecOps List
 
 abbrev Ann (F : FloatOps) := List (List F.F32) → List F.F32 → Nat → Nat → List (Nat × F.F32)
 
-/-- Whatever `ann` returns, `search` only returns identifiers of the graph built by the last
-    `rebuild_hnsw`, and at most `k` of them. -/
-theorem C24_search_ids_subset_inner {F : FloatOps} (ann : Ann F) (s : Index F) (q : List F.F32) (k : Nat) (ef : Option Nat) :
-    (∀ p ∈ search ann s q k ef, ∃ g, s.inner = some g ∧ p.1 ∈ g.map (·.1)) ∧ (search ann s q k ef).length ≤ k :=
-  ⟨search_ids_subset_inner ann s q k ef, search_length_le ann s q k ef⟩
+/-- Every operation keeps the graph invariant: the graph minus the currently tombstoned identifiers
+    holds exactly the stored, non-tombstoned entries (so it holds after every history). -/
+theorem C24_graph_invariant {F : FloatOps} (cfg : Cfg) (ops : List (Op F)) :
+    GraphOk (runOps ({ cfg := cfg } : Index F) ops) :=
+  graphOk_run ops _ (graphOk_empty cfg)
 
-/-- After every operation that ends in `rebuild_hnsw` — a successful `insert` / `insert_batch`, a
-    `rebuild`, a `load`, a `delete` that crosses the 30 % threshold — the graph holds exactly the
-    stored, non-tombstoned entries. -/
-theorem C24_inner_eq_live_after_rebuild {F : FloatOps} (s : Index F) :
-    (∀ id v, (insert s id v).2 = none → InnerLive (insert s id v).1) ∧
-    (∀ es, (insertBatch s es).2 = none → InnerLive (insertBatch s es).1) ∧
-    (∀ vs, InnerLive (rebuild s vs)) ∧
-    (∀ (p : Persisted F) (s' : Index F), load p = some s' → InnerLive s') ∧
-    (∀ id, ratioAbove (tombstone s id) = true → InnerLive (delete s id)) :=
-  ⟨fun id v h => insert_ok_innerLive s id v h, fun es h => insertBatch_ok_innerLive es s h,
-   fun vs => rebuild_innerLive s vs, fun p s' h => load_innerLive p s' h,
-   fun id h => delete_compacting_innerLive s id h⟩
+/-- Whatever `ann` returns, `search` returns at most `k` identifiers, each of a graph entry that is
+    not tombstoned. -/
+theorem C24_search_ids_not_tombstoned {F : FloatOps} (ann : Ann F) (s : Index F) (q : List F.F32) (k : Nat) (ef : Option Nat) :
+    (∀ p ∈ search ann s q k ef, ∃ g e, s.inner = some g ∧ e ∈ g ∧ e.1 = p.1 ∧ isTomb s e.1 = false) ∧
+    (search ann s q k ef).length ≤ k := by
+  refine ⟨?_, search_length_le ann s q k ef⟩
+  intro p hp
+  unfold search at hp
+  split at hp
+  · simp at hp
+  · exact searchRaw_ids _ _ _ _ p hp
 
-/-- The property for one search after a history, at the strength the wrapper can offer over a
-    contract-abiding `ann`: returned identifiers are live, there are at most `k`, and when the live
-    set fits in the search breadth there are exactly `min k |live|`. -/
-def SearchValid {F : FloatOps} (ann : Ann F) (s : Index F) (q : List F.F32) (k : Nat) (ef : Option Nat) : Prop :=
-  (∀ p ∈ search ann s q k ef, (liveOf s p.1).isSome = true) ∧
-  (search ann s q k ef).length ≤ k ∧
-  ((active s).length ≤ searchEf s ef → (search ann s q k ef).length = min k (active s).length)
-
-/-- `ann` honours its contract on the call this search makes. -/
+/-- `ann` honours its contract on the call this search makes (knbn and ef widened by the number
+    of tombstones, as the code does). -/
 def AnnOkHere {F : FloatOps} (ann : Ann F) (s : Index F) (q : List F.F32) (k : Nat) (ef : Option Nat) : Prop :=
   ∀ g, s.inner = some g →
     annOk (g.map (·.2)) (prepare F s.cfg.metric q) (searchK s k) (searchEf s ef)
       (ann (g.map (·.2)) (prepare F s.cfg.metric q) (searchK s k) (searchEf s ef)) = true
 
-/-- C24 at full strength: for every float model, every `ann`, every configuration, every history of
-    inserts / batches / deletes / rebuilds / save-load cycles from the empty index, every query. -/
+/-- no more tombstoned entries in the graph than tombstones (true whenever identifiers are distinct). -/
+def DeadBounded {F : FloatOps} (s : Index F) : Prop :=
+  ∀ g, s.inner = some g → (g.filter (fun e => isTomb s e.1)).length ≤ s.tombs.length
+
+/-- The property for one search: returned identifiers are live, there are at most `k`, and when the
+    graph fits in the (widened) search breadth there are exactly `min k |live|`. -/
+def SearchValid {F : FloatOps} (ann : Ann F) (s : Index F) (q : List F.F32) (k : Nat) (ef : Option Nat) : Prop :=
+  (∀ p ∈ search ann s q k ef, (liveOf s p.1).isSome = true) ∧
+  (search ann s q k ef).length ≤ k ∧
+  (DeadBounded s → (∀ g, s.inner = some g → g.length ≤ searchEf s ef) →
+    (search ann s q k ef).length = min k (active s).length)
+
+/-- C24 for every float model, every `ann`, every configuration, every history of inserts / batches /
+    deletes / rebuilds / save-load cycles from the empty index, every query. -/
 def C24_statement : Prop :=
   ∀ (F : FloatOps) (ann : Ann F) (cfg : Cfg) (ops : List (Op F)) (q : List F.F32) (k : Nat) (ef : Option Nat),
     AnnOkHere ann (runOps { cfg := cfg } ops) q k ef → SearchValid ann (runOps { cfg := cfg } ops) q k ef
 
-/-- witness: four points, `delete 0` (25 % tombstones, below the threshold), search at point 0. -/
+/-- C24 holds of the repaired wrapper, for all histories. -/
+theorem C24_full : C24_statement := by
+  intro F ann cfg ops q k ef hann
+  have hG := C24_graph_invariant (F := F) cfg ops
+  exact ⟨search_ids_live ann _ hG q k ef, search_length_le ann _ q k ef,
+         fun hd hn => search_length_complete ann _ hG q k ef hann hd hn⟩
+
+/-- the former counterexample (four points, `delete 0` below the compaction threshold, search at
+    point 0): the deleted identifier is no longer returned, the nearest live point is. -/
 def witnessCfg : Cfg := { m := 8, efc := 100, efs := 32, metric := .euclidean }
 def witnessOps : List (Op toyFloat) :=
   [.insertBatch [(0, toyVec [0]), (1, toyVec [10]), (2, toyVec [20]), (3, toyVec [30])], .delete 0]
-
 def witnessState : Index toyFloat := runOps { cfg := witnessCfg } witnessOps
 
-theorem C24_witness_inner : witnessState.inner = some [(0, toyVec [0]), (1, toyVec [10]), (2, toyVec [20]), (3, toyVec [30])] := by
+example : toyRes (search annExact witnessState (toyVec [0]) 1 none) = [(1, 10)] := by decide +kernel
+example : witnessState.tombs = [0] ∧ (witnessState.inner.map (·.map (·.1))) = some [0, 1, 2, 3] := by decide +kernel
+example : AnnOkHere annExact witnessState (toyVec [0]) 1 none := by
+  intro g hg
+  have h2 : witnessState.inner = some [(0, toyVec [0]), (1, toyVec [10]), (2, toyVec [20]), (3, toyVec [30])] := by decide +kernel
+  rw [h2] at hg
+  have : g = [(0, toyVec [0]), (1, toyVec [10]), (2, toyVec [20]), (3, toyVec [30])] := (Option.some.inj hg).symm
+  subst this
   decide +kernel
-
-theorem C24_witness_search : toyRes (search annExact witnessState (toyVec [0]) 1 none) = [(0, 0)] := by
-  decide +kernel
-
-theorem C24_refuted : ¬ C24_statement := by
-  intro h
-  have hv := h toyFloat annExact witnessCfg witnessOps (toyVec [0]) 1 none (by
-    intro g hg
-    have hg' : witnessState.inner = some g := hg
-    rw [C24_witness_inner] at hg'
-    have : g = [(0, toyVec [0]), (1, toyVec [10]), (2, toyVec [20]), (3, toyVec [30])] := (Option.some.inj hg').symm
-    subst this
-    decide +kernel)
-  have h0 := hv.1 (0, (0 : Int)) (by
-    show (0, (0 : Int)) ∈ toyRes (search annExact witnessState (toyVec [0]) 1 none)
-    rw [C24_witness_search]; exact List.mem_singleton.2 rfl)
-  have h1 : (liveOf witnessState 0).isSome = false := by decide +kernel
-  exact absurd h0 (by show ¬ (liveOf witnessState 0).isSome = true; rw [h1]; decide)
-
-/-- C24 for the histories after which the graph is in step with the stored state (decidable
-    predicate `graphInStep`: no tombstoning delete below the compaction threshold, no failing
-    batch since the last rebuild of the graph). -/
-theorem C24_partial (F : FloatOps) (ann : Ann F) (cfg : Cfg) (ops : List (Op F)) (q : List F.F32) (k : Nat) (ef : Option Nat)
-    (hstep : graphInStep ({ cfg := cfg } : Index F) true ops = true)
-    (hann : AnnOkHere ann (runOps { cfg := cfg } ops) q k ef) :
-    SearchValid ann (runOps { cfg := cfg } ops) q k ef := by
-  have hIL : InnerLive (runOps ({ cfg := cfg } : Index F) ops) :=
-    graphInStep_innerLive ops _ true (fun _ => by simp [InnerLive, active]) hstep
-  exact ⟨search_ids_live ann _ hIL q k ef, search_length_le ann _ q k ef,
-         fun hn => search_length_complete ann _ hIL q k ef hann hn⟩
-
-/-- the hypotheses of `C24_partial` are met by a non-trivial history: batch insert, update, a delete
-    that compacts; the search returns the nearest live point. -/
-def goodOps : List (Op toyFloat) :=
-  [.insertBatch [(0, toyVec [0]), (1, toyVec [10]), (2, toyVec [20])], .insert 1 (toyVec [11]), .delete 0]
-example : graphInStep ({ cfg := witnessCfg } : Index toyFloat) true goodOps = true := by decide +kernel
-example : (search annExact (runOps ({ cfg := witnessCfg } : Index toyFloat) goodOps) (toyVec [0]) 1 none).map (·.1) = [1] := by decide +kernel
 
 /-- Manhattan metric: candidates are the `4k` L2-nearest points, re-ranked by L1.  With more than
     `4k` live points the L1-nearest point can be missed: five points, `k = 1`. -/
